@@ -223,7 +223,15 @@ func (c *regexpSimplifyChecker) walk(e syntax.Expr) {
 
 	case syntax.OpEscapeChar:
 		switch e.Value {
-		case `\&`, `\#`, `\!`, `\@`, `\%`, `\<`, `\>`, `\:`, `\;`, `\/`, `\,`, `\=`, `\.`:
+		case `\,`:
+			if c.insideBraces() {
+				// `a{1\,2}` is literal text; without the escape it is a repetition.
+				out.WriteString(e.Value)
+			} else {
+				c.score++
+				out.WriteString(",")
+			}
+		case `\&`, `\#`, `\!`, `\@`, `\%`, `\<`, `\>`, `\:`, `\;`, `\/`, `\=`, `\.`:
 			c.score++
 			out.WriteString(e.Value[len(`\`):])
 		default:
@@ -253,6 +261,17 @@ func (c *regexpSimplifyChecker) walk(e syntax.Expr) {
 	default:
 		out.WriteString(e.Value)
 	}
+}
+
+// insideBraces reports whether the text written so far ends with `{` and
+// digits, so that a bare comma could turn it into a repetition.
+func (c *regexpSimplifyChecker) insideBraces() bool {
+	s := c.out.String()
+	i := len(s)
+	for i > 0 && s[i-1] >= '0' && s[i-1] <= '9' {
+		i--
+	}
+	return i > 0 && s[i-1] == '{'
 }
 
 func (c *regexpSimplifyChecker) hasCapture(e syntax.Expr) bool {
@@ -339,8 +358,9 @@ func (c *regexpSimplifyChecker) simplifyCharClass(e syntax.Expr) string {
 		switch e.Args[0].Op {
 		case syntax.OpChar:
 			switch v := e.Args[0].Value; v {
-			case "|", "*", "+", "?", ".", "[", "^", "$", "(", ")":
-				// Can't take outside of the char group without escaping.
+			case "|", "*", "+", "?", ".", "[", "^", "$", "(", ")", "{", "}", ",":
+				// Can't take outside of the char group without escaping
+				// ({ } , could complete a repetition: `a[{]2}` is not `a{2}`).
 			default:
 				return v
 			}
